@@ -1146,7 +1146,16 @@ func (c11) Run(c core.Case) core.Outcome {
 		return fail("output-crashes-compiler|"+frame, "the imported text crashes the compiler", text)
 	}
 	if err != nil {
-		return fail("output-does-not-compile", "the imported text does not compile: "+err.Error(), text)
+		sig := "output-does-not-compile"
+		if cs.XSD != nil {
+			// the recorded finding is specific to an explicit maxOccurs="1"
+			for _, e := range cs.XSD.Elems {
+				if e.Max == "1" {
+					sig = "output-does-not-compile|explicit-maxOccurs-1"
+				}
+			}
+		}
+		return fail(sig, "the imported text does not compile: "+err.Error(), text)
 	}
 	var problem, class string
 	switch {
